@@ -34,7 +34,7 @@ var c07LongMembers = []string{"san-dns", "san-mail", "many-san", "aia-uri", "man
 var c07URIs = []string{"http://ocsp.example.com", "https://o.example.org:8080/path?q=1",
 	// spellings that a normalising library would rewrite: the URI is carried as written
 	"HTTP://OCSP.Example.COM/Status", "http://ocsp.example.com/responder#", "http://ocsp.example.com/a%20b/%7Euser?x=%41", "ocsp.example.com", "ldap://ldap.example.com/cn=CA,dc=example?cACertificate"}
-var c07EKUs = []string{"serverAuth", "clientAuth", "codeSigning", "emailProtection", "timeStamping", "OCSPSigning", "1.2.3.4.5", "2.16.840.1.113730.4.1"}
+var c07EKUs = []string{"serverAuth", "clientAuth", "codeSigning", "emailProtection", "timeStamping", "OCSPSigning", "1.2.3.4.5", "2.16.840.1.113730.4.1", "2.999.1"}
 var c07AKILens = []int{1, 20, 32, 127, 128, 768, 769, 1024}
 
 // policy alphabet: plain, cps, and every user notice shape with at least one member
@@ -57,6 +57,8 @@ func c07Policies() []refcfg.Policy {
 	}
 	// two qualifiers on one policy
 	out = append(out, refcfg.Policy{Oid: "1.2.3.200", Qualifiers: &[]refcfg.Qualifier{{Cps: refcfg.S("http://a")}, {Notice: &refcfg.UserNotice{Text: refcfg.S("both")}}}})
+	// policy OIDs below the joint arc 2 with a second arc above 39, and a two-arc OID
+	out = append(out, refcfg.Policy{Oid: "2.49.0.1", Qualifiers: &[]refcfg.Qualifier{{Cps: refcfg.S("http://j.example")}}}, refcfg.Policy{Oid: "2.999"})
 	// spellings that are carried as written: upper-case scheme and host, empty fragment, quotes, ampersand
 	out = append(out, refcfg.Policy{Oid: "1.2.3.201", Qualifiers: &[]refcfg.Qualifier{{Cps: refcfg.S("HTTP://CPS.Example.ORG/Path%20x#")}, {Cps: refcfg.S("ldap://dir.example.org/cn=CPS?x")},
 		{Notice: &refcfg.UserNotice{Organization: refcfg.S("ACME & Söhne \"Holding\""), Numbers: &[]int{3, 2, 1, 1}, Text: refcfg.S("'single' and \"double\" quotes,  two  spaces")}}}})
@@ -337,7 +339,7 @@ func init() {
 	register(&engine.Check{
 		ID:          "C07",
 		Level:       "exploration",
-		Rule:        "keyUsage: all 128 flag subsets x critical 3 (written order varied); subjectAlternativeName: all lists of length 0..4 over {mail,dns,ip} x 2 values plus the all-zero address and a mixed-case dns name (4681; thorough 0..5), and every octet value 0..255 in each of the four positions of an ip name written plain or with one or two leading zeros (3072); basicConstraints: ca {omitted,false,true} x pathLen {omitted, 0..255, 256, 65535, 2^31} (780); certificatePolicies: 28 policy shapes (plain, cps, every userNotice combination of organization x numbers x text, two qualifiers), singles and all pairs; authorityInformationAccess: lists 0..3 (thorough 0..4) over 7 URIs (two plain ones and five spellings a normalising library would rewrite); extendedKeyUsage: lists 0..3 (thorough 0..4) over 6 names + 2 OIDs; subjectAlternativeName lists up to 4 (thorough 5); authorityKeyIdentifier: hash (self-signed and under an issuer) and explicit ids of 1,20,32,127,128,768,769,1024 bytes x critical 3, every one-octet id (256) and a three-octet id for every pair of leading base64 characters of its !binary spelling (4096); subjectKeyIdentifier hash; ocspNoCheck; every string-, OID- and list-valued member at 25 lengths around the 127/128, 255/256 and 65535/65536 DER length-form boundaries. Each through a whole run; the emitted body must equal the reference DER encoding written from RFC 5280 / 6960 (DER is canonical, so byte equality = an independent decoder reading back exactly the configured value). non-trivial = distinct case",
+		Rule:        "keyUsage: all 128 flag subsets x critical 3 (written order varied); subjectAlternativeName: all lists of length 0..4 over {mail,dns,ip} x 2 values plus the all-zero address and a mixed-case dns name (4681; thorough 0..5), and every octet value 0..255 in each of the four positions of an ip name written plain or with one or two leading zeros (3072); basicConstraints: ca {omitted,false,true} x pathLen {omitted, 0..255, 256, 65535, 2^31} (780); certificatePolicies: 30 policy shapes (plain, cps, every userNotice combination of organization x numbers x text, two qualifiers), singles and all pairs; authorityInformationAccess: lists 0..3 (thorough 0..4) over 7 URIs (two plain ones and five spellings a normalising library would rewrite); extendedKeyUsage: lists 0..3 (thorough 0..4) over 6 names + 3 OIDs (one of them below arc 2 with a second arc above 39); subjectAlternativeName lists up to 4 (thorough 5); authorityKeyIdentifier: hash (self-signed and under an issuer) and explicit ids of 1,20,32,127,128,768,769,1024 bytes x critical 3, every one-octet id (256) and a three-octet id for every pair of leading base64 characters of its !binary spelling (4096); subjectKeyIdentifier hash; ocspNoCheck; every string-, OID- and list-valued member at 25 lengths around the 127/128, 255/256 and 65535/65536 DER length-form boundaries. Each through a whole run; the emitted body must equal the reference DER encoding written from RFC 5280 / 6960 (DER is canonical, so byte equality = an independent decoder reading back exactly the configured value). non-trivial = distinct case",
 		Bound:       map[string]string{"lists": "quick <=3, thorough SAN<=4 AIA<=5 EKU<=4", "pathLen": "0..255 + 3 large"},
 		Assumptions: []string{"a userNotice with neither organization, numbers nor text has no defined encoding and is excluded", "SAN ip octets outside 0..255 are outside the domain (C20 covers the error clause)"},
 		Budget:      budgets(quickBudget, thoroughBudget),
